@@ -33,7 +33,7 @@ K_NAME = ('K_heap (Heap.check_kcase extracted to OCaml: run_hevents = deepcopy w
 RULE = ('a case is a history over containers, parser-style BaseModel classes (CHECK is ENDOGENOUS or a separate list), Alias/Tracer '
         'mixin combinations and linkers with two submodels: instantiation (range / tuple / list / caller-shared list span, strict), '
         'the three copy routes at random points, reindex, operations on either side (item / whole-series / scalar assignment, '
-        'add_variable of five dtypes, attribute sets, strict, list mutations of names / check / endogenous / index / class lists, alias '
+        'add_variable of five dtypes, attribute sets (scalars, lists, lists of lists, sets), strict, list mutations of names / check / endogenous / index / class lists, alias '
         'dict writes, solve_t with scripted _evaluate incl. traced solves, trace_t, Trace.names mutation, linker solve and submodel '
         'writes, storing one of the object\'s own lists under a second attribute), operations that raise included (a traced operation that raises half-way is replayed with the labels it stored). '
         'Non-trivial = at least two derived roots (instance / copy / sibling / reindex) and at least one successful operation after '
@@ -47,8 +47,15 @@ ASSUMPTIONS = ['claim is PARTIAL: the heap model abstracts CPython object semant
                'a span list handed to two constructors, and models handed to a linker, are shared by the CALLER (stored by reference); '
                'independence is claimed for arguments nobody else holds',
                'a VectorContainer nested inside another container\'s attribute (other than a linker\'s submodels) is outside the model',
-               'equality at copy time = equality of the observable state (orphan `_name` arrays that no accessor reaches, left by '
-               '__init__ of a class whose NAMES list was extended after the original was created, are not compared); aliasing BETWEEN '
+               'the model\'s copy is DEFINED only on objects whose __dict__ entries are acyclic graphs of lists / dicts / sets / arrays / '
+               'plain objects (Props/C11.v C11_copy_defined); a container stored in an ordinary attribute (m.other = another_model), '
+               'linkers of linkers and cyclic graphs are outside the model (Python copies the first two): not generated, theorems silent',
+               'K compares the __dict__ of an instance as a map and `_attributes` as a set; `index` order, the Trace layout (index / '
+               'values dtype) and the order of every other list ARE compared (K is stricter than the oracle there: a K-only disagreement '
+               'is reported as no-failing-input-found)',
+               'the span-equality check between the submodels of a linker (InitialisationError) is not modelled: a failing construction '
+               'ends the history on both sides',
+               'equality at copy time = equality of the whole __dict__ (values, dtypes, lists, entries); aliasing BETWEEN '
                'entries of one object (only the user creates it: m.mine = m.names) may be kept or dropped by copy() - both memo policies '
                'are accepted by K and covered by the theorems - aliasing the copy ADDS is a failure',
                'traced models only get float variables (NumPy coerces the mixed column of a trace; not modelled)']
@@ -138,7 +145,8 @@ def _is_trace(x):
 
 def is_mutable(x):
     import numpy as np
-    return isinstance(x, (list, dict, np.ndarray)) or _is_container(x) or _is_trace(x) or isinstance(x, ClassRoot)
+    return isinstance(x, (list, dict, set, np.ndarray)) or _is_container(x) or _is_trace(x) or isinstance(x, ClassRoot)
+
 
 
 class RawCode:
@@ -185,11 +193,14 @@ def kind_cells(x, enc):
                 cells.append((vkey(enc.code(k[1:])), v))
             else:
                 cells.append((akey(enc.code(k)), v))
-        return (4, 0), cells
+        # the __dict__ is compared as a MAP: sorted by key code (the insertion order of the entries is no observable of the property)
+        return (4, 0), sorted(cells, key=lambda kv: kv[0])
     if _is_trace(x):
         return (3, 1), [(akey(enc.code(k)), v) for k, v in x.__dict__.items()]
     if isinstance(x, list):
         return (1, 0), list(enumerate(x))
+    if isinstance(x, set):
+        return (3, 2), list(enumerate(sorted(x, key=enc.code)))
     if isinstance(x, dict):
         return (2, 0), [(enc.code(k), v) for k, v in x.items()]
     if isinstance(x, np.ndarray):
@@ -200,7 +211,7 @@ def kind_cells(x, enc):
     raise AssertionError(type(x))
 
 
-def ctree(x, enc, depth):
+def ctree(x, enc, depth, as_set=False):
     if isinstance(x, RawCode):
         return x.c
     if not is_mutable(x):
@@ -208,7 +219,10 @@ def ctree(x, enc, depth):
     if depth == 0:
         return 'cut'
     kd, cells = kind_cells(x, enc)
-    return [list(kd), [[k, ctree(v, enc, depth - 1)] for k, v in cells]]
+    if as_set:          # `_attributes`: the names as a sorted list of codes
+        return [list(kd), [[i, c] for i, c in enumerate(sorted(enc.code(v) if not is_mutable(v) else 0 for _, v in cells))]]
+    attrs = akey(enc.code('_attributes')) if _is_container(x) else None
+    return [list(kd), [[k, ctree(v, enc, depth - 1, as_set=(k == attrs))] for k, v in cells]]
 
 
 def dfs_paths(root, enc):
@@ -250,6 +264,8 @@ def snapshot(x, memo=None):
         return ['trace', [[k, snapshot(v)] for k, v in sorted(x.__dict__.items())]]
     if isinstance(x, list):
         return ['list', [snapshot(v) for v in x]]
+    if isinstance(x, set):
+        return ['set', sorted(json.dumps(snapshot(v)) for v in x)]
     if isinstance(x, dict):
         return ['dict', [[snapshot(k), snapshot(v)] for k, v in x.items()]]
     if isinstance(x, np.ndarray):
@@ -344,6 +360,9 @@ def make_class(desc, idx):
 def make_span(sd, labels_only=False):
     """the span object handed to the constructor (labels_only: its labels as a plain list of Python ints)"""
     vals = list(range(sd['start'], sd['start'] + sd['n']))
+    if sd['kind'] == 'pdindex' and not labels_only:          # an (immutable) pandas Index as span
+        import pandas as pd
+        return pd.Index(vals)
     if sd['kind'] == 'ndarray' and not labels_only:          # a mutable NumPy array as span (copy() must deep-copy it like a list)
         import numpy as np
         return np.array(vals)
@@ -370,6 +389,7 @@ def impl(case):
     roots = [ClassRoot(c, d) for c, d in zip(classes, case['classes'])]
     shared_spans = [make_span(sd) for sd in case['shared_spans']]
     outcomes = []
+    ever_shared = {}
     copy_checks = []
     derived = []           # (new root index, kind, source root index)
 
@@ -399,12 +419,16 @@ def impl(case):
                 _, i, route = ev
                 src = roots[i]
                 before = snapshot(src)
-                new = {'copy': lambda x: x.copy(), 'copy.copy': _copy.copy, 'copy.deepcopy': _copy.deepcopy}[route](src)
+                try:
+                    new = {'copy': lambda x: x.copy(), 'copy.copy': _copy.copy, 'copy.deepcopy': _copy.deepcopy}[route](src)
+                except Exception as e:      # a copy route that RAISES returns no object at all: recorded for the oracle
+                    copy_checks.append({'src': i, 'route': route, 'raised': type(e).__name__})
+                    raise
                 roots.append(new)
                 derived.append([len(roots) - 1, 'copy', i])
                 copy_checks.append({'src': i, 'new': len(roots) - 1, 'route': route, 'same_class': type(new) is type(src),
                                     'src_unchanged': snapshot(src) == before,
-                                    'equal': observable(new) == observable(src),
+                                    'equal': snapshot(new) == snapshot(src),
                                     'diff': _dict_diff(src, new),
                                     'aliases_src': internal_aliases(src, enc), 'aliases_new': internal_aliases(new, enc)})
             elif kind == 'linker_init':
@@ -427,11 +451,14 @@ def impl(case):
         outcomes.append(out)
         if 'exc' in out and kind != 'op':
             break             # a constructor / copy raised: the history ends here (on both sides)
+        # identity scan after EVERY event (a sharing that a later operation undoes must not go unnoticed)
+        for a, b, l in sharing(roots, enc):
+            ever_shared.setdefault('%d,%d' % (a, b), [len(outcomes) - 1, l[0]])
 
     obs = {'outcomes': outcomes,
            'views': [ctree(r, enc, DEPTH) for r in roots],
            'sharing': sharing(roots, enc),
-           'copy_checks': copy_checks, 'derived': derived, 'nroots': len(roots)}
+           'copy_checks': copy_checks, 'derived': derived, 'nroots': len(roots), 'ever_shared': ever_shared}
     # class-level mutables reachable from instances
     leaks = []
     class_mut = {}
@@ -469,13 +496,15 @@ def _dict_diff(src, new):
     out = []
     for k in sorted(set(a) | set(b)):
         if k not in a:
-            out.append(['extra', k])
+            # explained = the known finding's class exactly: a series `_<name>` for a name of the class's CURRENT NAMES that the
+            # original (created before the class list was extended) does not have
+            out.append(['extra', k, bool(k.startswith('_') and k[1:] in getattr(type(new), 'NAMES', []) and k[1:] not in a.get('index', []))])
         elif k not in b:
             out.append(['missing', k])
         elif snapshot(a[k]) != snapshot(b[k]):
             if k == 'submodels' and isinstance(a[k], dict) and isinstance(b[k], dict) and list(a[k]) == list(b[k]):
                 for key in a[k]:
-                    out += [[d[0], '%s[%s].%s' % (k, key, d[1])] for d in _dict_diff(a[k][key], b[k][key])]
+                    out += [[d[0], '%s[%s].%s' % (k, key, d[1])] + d[2:] for d in _dict_diff(a[k][key], b[k][key])]
             else:
                 out.append(['differs', k])
     return out
@@ -514,6 +543,9 @@ def mutate_everything(root):
             n += 1
         elif isinstance(x, dict):
             x['PROBE'] = 'PROBE'
+            n += 1
+        elif isinstance(x, set):
+            x.add('PROBE')
             n += 1
     if _is_container(root):
         try:
@@ -589,6 +621,10 @@ def run_op_(roots, i, o, enc):
         setattr(x, o[1], o[2])
     elif k == 'setattrlist':
         setattr(x, o[1], list(o[2]))
+    elif k == 'setattrnested':        # a list of lists
+        setattr(x, o[1], [list(v) for v in o[2]])
+    elif k == 'setattrset':
+        setattr(x, o[1], set(o[2]))
     elif k == 'strict':
         x.strict = o[1]
     elif k == 'setfrom':             # whole-series assignment whose VALUE is ANOTHER object's array (same dtype): b.X = a.X
@@ -771,6 +807,10 @@ def c_ops(case, ev, out, enc, kinds):
         return ['(OSetAttr %s %s)' % (cz(enc.code(o[1])), cz(enc.code(o[2])))]
     if k == 'setattrlist':
         return ['(OSetAttrList %s %s)' % (cz(enc.code(o[1])), czl(enc.code(v) for v in o[2]))]
+    if k == 'setattrnested':
+        return ['(OSetAttrNested %s %s)' % (cz(enc.code(o[1])), lib.clist(czl(enc.code(v) for v in vs) for vs in o[2]))]
+    if k == 'setattrset':
+        return ['(OSetAttrSet %s %s)' % (cz(enc.code(o[1])), czl(sorted(enc.code(v) for v in set(o[2]))))]
     if k == 'strict':
         return ['(OSetStrict %s)' % cz(enc.code(bool(o[1])))]
     if k == 'setattr_own':
@@ -886,7 +926,7 @@ def c_case(case, obs):
             else:
                 evs.append('(HEv (EInit %d%%nat %s))' % (ev[1], iargs))
         elif k == 'copy':
-            evs.append('(HEv (%s %d%%nat))' % ('ELinkerCopy' if kinds[ev[1]]['desc']['kind'] == 'linker' else 'ECopy', ev[1]))
+            evs.append('(HCopyRoute %s %d%%nat)' % ({'copy': 'RCopy', 'copy.copy': 'RCopyCopy', 'copy.deepcopy': 'RDeepCopy'}[ev[2]], ev[1]))
         elif k == 'linker_init':
             evs.append('(HEv (ELinkerInit %d%%nat %s %s))' % (ev[1], lib.clist('(%s, %d%%nat)' % (cz(enc.code(key)), j) for key, j in ev[2]), cz(enc.code('_'))))
         elif k == 'reindex':
@@ -1106,12 +1146,20 @@ def oracle(case, obs):
     kinds = root_kinds(case)
     # 1. copies: same class, original untouched, equal observable state
     for c in obs['copy_checks']:
+        if 'raised' in c:
+            bad('%s|raises' % c['route'], '%s of root %d raised %s instead of returning a copy' % (c['route'], c['src'], c['raised']))
+            continue
         if not c['same_class']:
             bad('%s|class' % c['route'], '%s returned an object of another class' % c['route'])
         if not c['src_unchanged']:
             bad('%s|original-changed' % c['route'], 'taking a copy changed the original')
         if not c['equal']:
-            bad('%s|state-differs' % c['route'], 'copy is not equal to the original: %s' % c['diff'])
+            if c['diff'] and all(d[0] == 'extra' and len(d) > 2 and d[2] for d in c['diff']):
+                bad('%s|state-differs|extra-entry-after-class-NAMES-extended' % c['route'],
+                    'the copy has __dict__ entries the original lacks (%s): copy() runs __init__ of the class as it is NOW, whose NAMES '
+                    'list was extended after the original was created' % [d[1] for d in c['diff']])
+            else:
+                bad('%s|state-differs' % c['route'], 'copy is not equal to the original: %s' % c['diff'])
         # aliasing BETWEEN components of one object: the copy must not alias what the original keeps apart (two variables backed by
         # one array would make a later write to one of them change the other: not observationally equal).  The converse — Trace.names
         # is model.names after a traced solve, one span list handed to two submodels: the entry-by-entry deep copy separates them —
@@ -1143,6 +1191,16 @@ def oracle(case, obs):
             bad('classes-share', 'two classes share a mutable object')
         else:
             bad('shared-object|%s' % (dj[1] if dj else '?'), 'roots %d and %d share %d mutable object(s), e.g. %s / %s' % (i, j, len(l), l[0][0], l[0][1]))
+    # 2b. the same scan after every event: a pair of roots that shared an object at ANY time
+    final_pairs = {(i, j) for i, j, _ in obs['sharing']}
+    for key, (step, pq) in sorted(obs.get('ever_shared', {}).items()):
+        i, j = map(int, key.split(','))
+        if (i, j) in allowed or (i, j) in final_pairs:
+            continue
+        if any(pq[1][:len(p)] == p for p in leak_paths.get(j, [])) or any(pq[0][:len(p)] == p for p in leak_paths.get(i, [])):
+            continue
+        bad('shared-object|transient', 'roots %d and %d shared a mutable object after event %d (%s / %s) although they share nothing at the end'
+            % (i, j, step, pq[0], pq[1]))
     # 3. class-level mutables reachable from an instance
     seen_leak = set()
     for i, attr, p in obs['class_leaks']:
@@ -1280,7 +1338,7 @@ def gen_case(rng, flavour, uniq):
     shadows = [None] * len(classes)      # index = root index
 
     def new_instance(shared=False):
-        sd = {'kind': 'shared', 'id': 0} if shared else {'kind': rng.choice(['range', 'range', 'list', 'tuple', 'ndarray']), 'start': rng.choice([0, 2000]), 'n': n}
+        sd = {'kind': 'shared', 'id': 0} if shared else {'kind': rng.choice(['range', 'range', 'list', 'tuple', 'ndarray', 'pdindex']), 'start': rng.choice([0, 2000]), 'n': n}
         init = {}
         if desc['kind'] == 'model' and rng.random() < 0.5:
             init[rng.choice(desc['endo'] + desc['exo'])] = [lib.fhex(rng.choice(FLOATS)) for _ in range(n)]
@@ -1303,6 +1361,10 @@ def gen_case(rng, flavour, uniq):
     if flavour == 'linker':
         b = new_instance()
         events[-1][2]['span'] = dict(events[-2][2]['span'])      # submodels of one linker need identical spans
+        if rng.random() < 0.06 and events[-1][2]['span'].get('kind') != 'shared':
+            # malformed: the second submodel's span differs -> BaseLinker.__init__ raises InitialisationError (the span-equality check
+            # is not modelled: the history ends here on both sides, nothing may have been shared or changed)
+            events[-1][2]['span'] = dict(events[-1][2]['span'], start=events[-1][2]['span']['start'] + 1)
         events.append(['linker_init', 1, [['A', a], ['B', b]]])
         shadows.append(Shadow('linker', 1, classes[1], n, ['LV'], ['LV', 'status', 'iterations'], {'A': a, 'B': b}))
         shadows[-1].desc_sub_endo = desc['endo'][0]
@@ -1442,7 +1504,9 @@ def gen_op(rng, s, fresh_float, alias, tracer):
     if q < 0.56:
         if s.kind == 'model' and rng.random() < 0.7:
             return ['setattrlist', rng.choice(['check', 'endogenous']), [rng.choice(fv)] if fv else []]
-        return ['setattrlist', rng.choice(ATTR_NAMES), [1, 2]]
+        return rng.choice([['setattrlist', rng.choice(ATTR_NAMES), [1, 2]],
+                           ['setattrnested', rng.choice(ATTR_NAMES), [[1, 2], [3], []]],
+                           ['setattrset', rng.choice(ATTR_NAMES), [1, 2, 'a']]])
     if q < 0.60:
         return ['strict', rng.random() < 0.5]
     if s.kind == 'model':
@@ -1605,7 +1669,8 @@ def corpus_cases():
     cont = {'kind': 'container', 'endo': [], 'exo': [], 'check': None, 'lags': 0, 'leads': 0, 'alias': None, 'preferred': [], 'tracer': False,
             'trace_vars': None}
     evs = [init('list'), ['op', 1, ['addvar', 'V1', [h(1.0), h(2.0), h(3.0)], 'float']], ['op', 1, ['addvar', 'V2', [None, None, None], 'object']],
-           ['op', 1, ['setattrlist', 'ind', [1, 2]]], ['op', 1, ['setattr', 'nam', 3]]]
+           ['op', 1, ['setattrlist', 'ind', [1, 2]]], ['op', 1, ['setattr', 'nam', 3]],
+           ['op', 1, ['setattrnested', 'els', [[1, 2], [3], []]]], ['op', 1, ['setattrset', 'sub', [1, 2, 'a']]]]
     evs += [['copy', 1, r] for r in routes]
     evs += [['op', 2, ['setscalar', 'V1', h(8.0)]], ['op', 3, ['lappend', 'ind', 5]], ['op', 1, ['setitem', 'V1', 2, h(9.0), 'label']]]
     out.append({'classes': [cont], 'shared_spans': [], 'events': evs, 'flavour': 'container'})
